@@ -112,11 +112,18 @@ def novel_products(cmd, rng, cap=S.CAP, limit=6000):
                 combos.append(dict(zip(sub, vals)))
     if len(combos) > limit:
         combos = rng.sample(combos, limit)
+    # ATA pass-through: what the forced fields mean depends on the protocol flags around them, so those are gone through in full
+    around = [{}]
+    if cmd.xfer == "ata":
+        around = [{"byte_block": bb, "t_type": tt, "t_length": tl_, "blocksize": bs_} for bb in (0, 1) for tt in (0, 1) for tl_ in (0, 1, 2, 3) for bs_ in (512, 4096)
+                  if not (bb and tt and tl_ and not bs_)]
     for force in combos:
-        for _rep in range(6 if cmd.xfer == "ata" else 2):  # (ATA pass-through: the protocol flags around the forced fields vary too)
-            a = random_args(cmd, rng, cap=cap, force=force)
-            if all(a.get(k) == v for k, v in force.items()):
-                yield a
+        for extra in around:
+            for _rep in range(1 if extra else 2):
+                f2 = dict(extra, **force)
+                a = random_args(cmd, rng, cap=cap, force=f2)
+                if all(a.get(k) == v for k, v in force.items()):
+                    yield a
 
 
 def random_args(cmd, rng, cap=S.CAP, force=None):
@@ -146,6 +153,8 @@ def random_args(cmd, rng, cap=S.CAP, force=None):
         elif kind == "atadata":
             a[name] = None
     for name, v in (force or {}).items():
+        if name not in cmd.args:
+            continue
         kind, width, d = cmd.args[name]
         if kind in ("alloc", "tl", "cdtl"):
             unit = {"alloc": 1, "tl": a.get("blocksize") or 1, "cdtl": 3072}[kind]
